@@ -92,9 +92,9 @@ def _pairs_task(task):
                     back = s1 - sb
                     _judge(part, model, "C03:add-then-sub:" + names, back, qa, ma, scale, detail)
                     # Arrays, element by element
-                    for kind, mk in (("list", list), ("tuple", tuple), ("ndarray", np.array)):
+                    for kind, mk, mk2 in (("list", list, list), ("tuple", tuple, tuple), ("ndarray", np.array, np.array), ("ndarray+list", np.array, list), ("ndarray+tuple", np.array, tuple), ("list+ndarray", list, np.array)):
                         va = mk([sa.value, 2.0 * sa.value])
-                        vb = mk([sb.value, -3.0 * sb.value])
+                        vb = mk2([sb.value, -3.0 * sb.value])
                         for opn in "+-":
                             ar = (Array(qa, va) + Array(qb, vb)) if opn == "+" else (Array(qa, va) - Array(qb, vb))
                             part.count("evaluations")
